@@ -475,7 +475,16 @@ def run_schedule(spec, sched, n_runs=1, overlap=False, inputs=None, tag='', step
                         loop.step()
                         obs['actions'].append(['s'])
                 elif act[0] == 'q':
-                    loop.run_ready(step_limit)
+                    try:
+                        loop.run_ready(step_limit)
+                    except RuntimeError as e:
+                        if 'step limit' not in str(e):
+                            raise
+                        # the loop never becomes idle although no completion is delivered: a livelock of the engine inside one
+                        # quiescence (seen only on the known-finding shapes of D12 with all-inline bodies): same verdict as above
+                        verdict = 'steplimit'
+                        obs['actions'].append(['q'])
+                        break
                     obs['actions'].append(['q'])
                 elif act[0] == 'g':
                     hit = [c for g, c in pend if g == act[1]]
@@ -494,7 +503,7 @@ def run_schedule(spec, sched, n_runs=1, overlap=False, inputs=None, tag='', step
                         obs['actions'].append(['c', act[1] % len(runs)])
             # drain
             drained = 0
-            while drain and loop.ready and drained < 100000:
+            while drain and verdict != 'steplimit' and loop.ready and drained < 100000:
                 loop.step()
                 drained += 1
             snaps.append(snapshot(built))
